@@ -37,6 +37,10 @@ def shards(tier: str, seed: int) -> List[Dict[str, Any]]:
             # the short-limit configuration never leaves the start area: the default maze with its long limit lets the
             # frontier workload reach the last rows / the tunnel through the adapters
             cfgs = cfgs + [E.configs(e, tier)[0]]
+        # configurations whose observations reach the far end of the declared ranges (LBF: a sight range below the grid size
+        # with few agents - view coordinates above every level; Connector: episodes long enough for agents to connect while others still move)
+        for cid in {"LevelBasedForaging": ["g10a2f4v3L30"], "Connector": ["u5a3L41"]}.get(e, []):
+            cfgs = cfgs + [E.cfg_by_id(e, cid)]
         seen = set()
         for c in cfgs:
             if c["id"] in seen:
@@ -165,6 +169,9 @@ def run_shard(shard: Dict[str, Any], rep: Report) -> None:
     variants = [(env, "")]
     if name in MULTI:
         variants.append((MultiToSingleWrapper(base, reward_aggregator=jnp.mean, discount_aggregator=jnp.mean), "mean_aggregators"))
+        # ... and a zero-propagating one (sum, min): the single-agent discount is 0 as soon as one agent is done, i.e. on
+        # ordinary mid-episode steps (Connector: an agent that has connected) - terminated must follow the discount, not LAST
+        variants.append((MultiToSingleWrapper(base, reward_aggregator=jnp.sum, discount_aggregator=jnp.min), "min_discount_aggregator"))
     for env, vtag in variants:
         if vtag:
             rep.count("adapter_runs_with_fractional_discount_aggregator")
@@ -260,6 +267,8 @@ def run_shard(shard: Dict[str, Any], rep: Report) -> None:
                         rep.count("gym_steps_with_fractional_discount")
                     nat_term = bool(np.all(np.asarray(t0.discount) == 0))
                     nat_last = int(np.asarray(t0.step_type)) == 2
+                    if nat_term and not nat_last:
+                        rep.count("gym_steps_zero_discount_not_last")
                     if term is not True and term is not False or bool(term) != nat_term:
                         viol("gym_terminated_iff_zero_discount", {"terminated": bool(term), "native_discount": np.asarray(t0.discount).tolist(), "step": i}, replay=rp2)
                     if bool(trunc) != nat_last:
@@ -384,7 +393,7 @@ def floors(tier: str, counters: Dict[str, int], per_env: Dict[str, Dict[str, int
     for e in E.ENVS:
         if per_env.get(e, {}).get("adapters_run", 0) < 1:
             missed.append(f"{e}: adapters not run")
-    for c, n in (("gym_steps", 200), ("gym_resets", 40), ("gym_sampled_actions", 100), ("gym_episode_ends", 10), ("gym_reseeds", 20), ("dm_steps", 200), ("dm_recreations", 20), ("multi_to_single_steps", 50)):
+    for c, n in (("gym_steps", 200), ("gym_resets", 40), ("gym_sampled_actions", 100), ("gym_episode_ends", 10), ("gym_reseeds", 20), ("dm_steps", 200), ("dm_recreations", 20), ("multi_to_single_steps", 50), ("gym_steps_zero_discount_not_last", 1)):
         if counters.get(c, 0) < n:
             missed.append(f"clause {c} evaluated {counters.get(c, 0)} < {n} times")
     return missed
